@@ -42,9 +42,12 @@ EXPLANATION = ('Coq: (a) the well-formedness checker run on every real pass outp
                'pointer types are only enforced by the ir.py constructors. (c) hand model of the bookkeeping mutators: '
                'refutations for the code as found; for the repaired code UNBOUNDED theorems that replace_use (plain, call, '
                'phi, repeated operands), Value.replace_by, Phi.set_incoming and Phi.del_incoming preserve stored uses = '
-               'operands and stored used_by = derived users for every state (Proofs/C03_store_inv.v); Block.references '
-               '(set_target_block, change_target, delete), replace_incoming, remove_from_block and attachment are covered by '
-               'the bounded theorem only (45120 exhaustively enumerated scenarios). The passes themselves are NOT modelled '
+               'operands and stored used_by = derived users for every state (Proofs/C03_store_inv.v), and c03_block_refs_inv: '
+               'Block.references = derived referring jumps is preserved by EVERY operation of the scenario language '
+               '(set_target_block, change_target, delete, remove_from_block, remove_instruction+delete and all def-use '
+               'mutators) for all states and arguments, hence by every operation sequence (Proofs/C03_refs_inv.v); the '
+               'def-use invariant under delete / remove_from_block / replace_incoming and instruction attachment are covered '
+               'by the bounded theorem only (49632 exhaustively enumerated scenarios). The passes themselves are NOT modelled '
                '(no c03_pass_wf theorems): pass-level assurance is translation validation of the sampled runs by the verified '
                'checker (C02 owns the pass models).')
 TRUSTED = ['tools/irimport.py (ppci.ir objects -> Coq syntax) and tools/gen/irgen.py',
@@ -67,15 +70,18 @@ MANIFEST = {
              'family, and acceptance by the verifier is proved to imply well-formedness minus its recorded gaps '
              '(each gap refuted by a witness, and closed for the verifier with the four proposed repairs).'),
     'note': ('trusted: irimport, irgen, hand models (cross-checked each run), C25 for ppci dominators; passes are validated '
-             'per run, not modelled; def-use mutator invariant unbounded, references/removal part bounded (45120 scenarios); '
+             'per run, not modelled; def-use mutator invariant unbounded, references/removal part bounded (49632 scenarios); '
              'verifier completeness not proved'),
     'technique': 'verified validator + hand models + bounded exhaustive vm_compute'}
 
-COQ_PROOFS = ['Proofs/C03_wf.vo', 'Proofs/C03_verify.vo', 'Proofs/C03_store.vo', 'Proofs/C03_store_inv.vo', 'Lib/Val.vo']
-FXKEYS = ['fx_replace_use', 'fx_call', 'fx_phi_replace', 'fx_phi_incoming', 'fx_jump_delete']
+COQ_PROOFS = ['Proofs/C03_wf.vo', 'Proofs/C03_verify.vo', 'Proofs/C03_store.vo', 'Proofs/C03_store_inv.vo',
+              'Proofs/C03_refs_inv.vo', 'Lib/Val.vo']
+FXKEYS = ['fx_replace_use', 'fx_call', 'fx_phi_replace', 'fx_phi_incoming', 'fx_jump_delete', 'fx_setter', 'fx_rfb']
+FX_KNOWN = ('fx_setter', 'fx_rfb')     # defects recorded as known findings (probed, not reported twice)
 FXDIFF = {'fx_replace_use': 'C03-replace-use-double', 'fx_call': 'C03-call-replace-use-repeated-args',
           'fx_phi_replace': 'C03-phi-replace-use-repeated', 'fx_phi_incoming': 'C03-phi-incoming-shared-value',
-          'fx_jump_delete': 'C03-jump-delete'}
+          'fx_jump_delete': 'C03-jump-delete', 'fx_setter': 'C03-value-use-setter',
+          'fx_rfb': 'C03-jump-remove-from-block'}
 
 
 def regen(ctx):
@@ -397,7 +403,7 @@ def store_level(ctx, O):
     fx = O.probe_fixes()
     ctx.cov['stages']['ir_py_configuration'] = fx
     for k in FXKEYS:
-        if not fx[k]:
+        if not fx[k] and k not in FX_KNOWN:
             ctx.violation({'fn': 'ir.' + k[3:], 'what': 'bookkeeping defect of ppci/ir.py present', 'key': k,
                            'args': [k], 'expected': 'mutator keeps stored uses/used_by/references equal to the derived sets',
                            'actual': 'KeyError or stale sets (see Props/C03.v c03_*_refuted)',
